@@ -51,6 +51,19 @@ func bufLen(tr tracerObj) int {
 	}
 }
 
+// isClosed is VerifClosed with the same limit.
+func isClosed(tr tracerObj) bool {
+	c := make(chan bool, 1)
+	go func() { c <- tr.VerifClosed() }()
+	select {
+	case b := <-c:
+		return b
+	case <-time.After(realWait):
+		nTimeouts.Add(1)
+		return false
+	}
+}
+
 // waitFor polls cond until it holds or the (generous) real-time limit expires; the driver only chooses how long to
 // look, the verdict on what it then reports is TLC's.
 func waitFor(cond func() bool) bool {
@@ -227,7 +240,7 @@ func fifoShape(t *testing.T, out *vh.Out, dir string, n int, c ctor, shape strin
 	quiet := func() {
 		// Trace calls must return whatever the writer does; a Close call is only waited for once the writer is free
 		// (in the code as found Close never waits; a Close that waits for the writer's flush would be legitimate)
-		waitFor(func() bool { return r.tracesOut() == 0 })
+		waitFor(func() bool { return r.tracesOut() == 0 && (len(r.blocked()) == 0 || isClosed(tr)) })
 		if !gate {
 			waitFor(func() bool { return len(r.blocked()) == 0 })
 			if closedCalled {
@@ -240,7 +253,7 @@ func fifoShape(t *testing.T, out *vh.Out, dir string, n int, c ctor, shape strin
 		if gate && f.full() {
 			wpos = "gate"
 		}
-		out.Emit(M{"e": "quiet", "blocked": r.blocked(), "buf": bufLen(tr), "wpos": wpos})
+		r.quiet(bufLen(tr), wpos)
 		if nTimeouts.Load() >= 3 {
 			panic(abortShape{}) // enough witnesses: what follows in this shape would only wait again
 		}
@@ -405,7 +418,7 @@ func TestX08RealFile(t *testing.T) {
 			if closedFile {
 				out.Emit(M{"e": "wclose"})
 			}
-			out.Emit(M{"e": "quiet", "blocked": r.blocked(), "buf": bufLen(tr), "wpos": "idle"})
+			r.quiet(bufLen(tr), "idle")
 			os.Remove(path)
 		}
 	}
@@ -480,11 +493,11 @@ func TestX08Stress(t *testing.T) {
 			// nobody closed: everything traced must get written without further ado
 			waitFor(func() bool { g.mu.Lock(); defer g.mu.Unlock(); return g.nw >= total })
 		}
-		out.Emit(M{"e": "quiet", "blocked": r.blocked(), "buf": bufLen(r.tr), "wpos": g.wpos()})
+		r.quiet(bufLen(r.tr), g.wpos())
 		if !withClose {
 			r.callClose()()
 			waitFor(func() bool { return nclosed() > 0 })
-			out.Emit(M{"e": "quiet", "blocked": r.blocked(), "buf": bufLen(r.tr), "wpos": g.wpos()})
+			r.quiet(bufLen(r.tr), g.wpos())
 		}
 	}
 }
